@@ -34,7 +34,7 @@ BUDGET = {"quick": dict(cases=3000, seconds=60, shards=4),
           "thorough": dict(cases=120000, seconds=600, shards=16)}
 REQUIRED = ["mon:trace-rejection-step", "mon:trace-stop-decision", "mon:trace-logged-statistics", "mon:model-final-masks", "mon:model-iteration-count", "mon:accepted-set-non-increasing",
             "mon:trace-count-equals-return", "mon:returns-int-within-limit", "mon:permutation-invariant",
-            "mon:rescaling-invariant", "iteration_events"]
+            "mon:rescaling-invariant", "mon:azimuths-iterate-on-their-own-accept-state", "iteration_events"]
 
 
 class IterHandler(logging.Handler):
@@ -336,6 +336,78 @@ def fam_azimuthal(ctx, rng):
         ctx.nontrivial(["az", naz, [int(h.n_curves) for h in hv.hvsrs], kw["n"], kw["max_iterations"], r["ret"], r["rejected"]])
 
 
+def fam_azimuthal_after_time_domain(ctx, rng):
+    """The usual order of a workflow: time-domain rejection with hvsr=<the azimuthal result> first, then the
+    frequency-domain algorithm on that result (same range, so that the entry search is a no-op and the time-domain
+    rejections hold).  Every azimuth is then iterated on ITS OWN accept state: each azimuth's final masks equal those
+    of a stand-alone HvsrTraditional twin that starts from that azimuth's entry state."""
+    import copy
+    import hvsrpy
+    naz = int(rng.integers(2, 6))
+    n = int(rng.integers(8, 26))
+    f = None
+    hs = []
+    for _ in range(naz):
+        ff, amp = gen_set(np.random.default_rng(int(rng.integers(0, 2 ** 31))), n_curves=n)
+        if f is None:
+            f = ff
+        if amp.shape[1] != f.size:
+            amp = np.vstack([np.interp(np.log(f), np.log(ff), a) for a in amp])
+        hs.append(hvsrpy.HvsrTraditional(f, amp))
+    hv = hvsrpy.HvsrAzimuthal(hs, list(np.sort(rng.uniform(0, 180, naz))))
+    sr = histories.rand_range(rng, f) if rng.random() < 0.3 else (None, None)
+    hv.update_peaks_bounded(search_range_in_hz=sr, find_peaks_kwargs={})
+    # windows of the recording: a few of them carry a transient
+    scales = np.where(rng.random(n) < 0.2, 4.0, 1.0)
+    records = []
+    for i in range(n):
+        a = rng.uniform(-1, 1, (3, 60)) * scales[i]
+        records.append(gen.make_recording(a[0], a[1], a[2], 0.01))
+    how = str(rng.choice(["maximum_value", "sta_lta"]))
+    with np.errstate(all="ignore"):
+        if how == "maximum_value":
+            hvsrpy.maximum_value_window_rejection(records, maximum_value_threshold=0.5, normalized=True, hvsr=hv)
+        else:
+            hvsrpy.sta_lta_window_rejection(records, sta_seconds=0.05, lta_seconds=0.6, min_sta_lta_ratio=float(rng.choice([0.0, 0.3])),
+                                            max_sta_lta_ratio=float(rng.choice([1.6, 2.5, 10.0])), hvsr=hv)
+    entry = [(h.valid_window_boolean_mask.copy(), h.valid_peak_boolean_mask.copy()) for h in hv.hvsrs]
+    kw = gen_kw(rng, f)
+    kw["search_range_in_hz"] = sr
+    kw["find_peaks_kwargs"] = {}
+    twins = []
+    for h, (vw, vp) in zip(hv.hvsrs, entry):
+        t = hvsrpy.HvsrTraditional(np.array(h.frequency), np.array(h.amplitude))
+        t.update_peaks_bounded(search_range_in_hz=sr, find_peaks_kwargs={})
+        t.valid_window_boolean_mask = vw.copy()
+        t.valid_peak_boolean_mask = vp.copy()
+        twins.append(t)
+    r = judge_call(ctx, hv, kw, f"azimuthal after {how} rejection with hvsr=")
+    ctx.describe(kind="azimuthal-after-time-domain-rejection", n_azimuths=naz, n_windows=n, time_domain=how,
+                 rejected_in_time_domain=[int(np.sum(~e[0])) for e in entry],
+                 **{k: (list(v) if isinstance(v, tuple) else v) for k, v in kw.items()}, returned=None if r is None else r["ret"])
+    if r is None:
+        return
+    bad = []
+    for a, (h, t) in enumerate(zip(hv.hvsrs, twins)):
+        try:
+            with np.errstate(all="ignore"):
+                hvsrpy.frequency_domain_window_rejection(t, **kw)
+        except Exception as e:
+            ctx.count("twin_raised")
+            continue
+        if not (np.array_equal(h.valid_window_boolean_mask, t.valid_window_boolean_mask)
+                and np.array_equal(h.valid_peak_boolean_mask, t.valid_peak_boolean_mask)):
+            bad.append(a)
+    ctx.check(not bad, "azimuths-iterate-on-their-own-accept-state",
+              "after a time-domain rejection with hvsr=<azimuthal>, the frequency-domain algorithm leaves azimuths with masks "
+              "that differ from a stand-alone run from the same entry state", azimuths=bad, n_azimuths=naz, time_domain=how,
+              entry_rejected=[int(np.sum(~e[0])) for e in entry],
+              final_rejected=[int(np.sum(~h.valid_window_boolean_mask)) for h in hv.hvsrs],
+              twin_rejected=[int(np.sum(~t.valid_window_boolean_mask)) for t in twins], n=kw["n"])
+    if r["rejected"] or any(np.any(~e[0]) for e in entry):
+        ctx.nontrivial(["az-after-td", naz, n, how, kw["n"], r["ret"], r["rejected"], [int(np.sum(~e[0])) for e in entry]])
+
+
 def fam_limit(ctx, rng):
     """Aimed at the iteration limit: small n and small max_iterations on scattered peaks."""
     import hvsrpy
@@ -473,5 +545,5 @@ def fam_symmetric_grid(ctx, rng):
         ctx.nontrivial(["symmetric", sorted(peaks), kw["n"], kw["distribution_mc"], r["ret"], r["rejected"]])
 
 
-FAMILIES = [("two-populations-mixed-distributions", fam_two_populations), ("symmetric-integer-grid", fam_symmetric_grid), ("pre-rejected-windows", fam_pre_rejected), ("scattered-multimodal", fam_scattered), ("traditional", fam_traditional), ("azimuthal", fam_azimuthal), ("iteration-limit", fam_limit),
+FAMILIES = [("two-populations-mixed-distributions", fam_two_populations), ("symmetric-integer-grid", fam_symmetric_grid), ("pre-rejected-windows", fam_pre_rejected), ("scattered-multimodal", fam_scattered), ("traditional", fam_traditional), ("azimuthal", fam_azimuthal), ("azimuthal-after-time-domain-rejection", fam_azimuthal_after_time_domain), ("iteration-limit", fam_limit),
             ("traditional-2", fam_traditional)]
